@@ -1,5 +1,5 @@
 SPECIFICATION Spec
 CONSTANTS
   OffStep = 1
-INVARIANTS Emit CivilInverse WeeksInRange KnownWeeks Weekdays
+INVARIANTS Emit
 CHECK_DEADLOCK FALSE
